@@ -606,6 +606,7 @@ func normaliseCounts(ev string, more ...*string) string {
 	}
 	return ren(ev)
 }
+
 var epochAtom = regexp.MustCompile(`^\((\w+#\d+) (==|>) 0\)$`)
 
 func ruleWRdTx(c *Ctx) {
